@@ -178,6 +178,31 @@ def gen_pair(rng):
     return case
 
 
+def gen_ctor(rng):
+    """construction with a (mostly malformed) array of individual uncertainties"""
+    xs = sl.gen_readings(rng, kind="small")
+    n = len(xs)
+    u = rng.random()
+    if u < 0.3:
+        m = rng.choice([j for j in (0, 1, n - 1, n + 1, n + 3) if j >= 0 and j != n])
+        errs = [sl.dyadic(rng, 4, 3, positive=True) for _ in range(m)]
+    elif u < 0.65:
+        errs = [sl.dyadic(rng, 4, 3, positive=True) for _ in range(n)]
+        errs[rng.randrange(n)] = -sl.dyadic(rng, 4, 3, positive=True, nonzero=True)
+    else:
+        errs = [sl.dyadic(rng, 4, 3, positive=True) for _ in range(n)]
+    return {"xs": [hx(x) for x in xs], "errs": [hx(e) for e in errs], "container": rng.choice(["list", "ndarray"])}
+
+
+def run_ctor(case):
+    """-> "ok" | exception name"""
+    try:
+        sl.build(["repeated", case["xs"], case["errs"], case.get("container", "list")])
+        return "ok"
+    except Exception as e:  # noqa
+        return type(e).__name__
+
+
 # ---- Coq encoding -------------------------------------------------------------------------------------------
 def q_(h):
     return qlit(fx(h))
@@ -284,13 +309,28 @@ def correspondence(ctx):
             shards.append(HEADER + "Definition cases := {}.\nEval vm_compute in (bad_indices check_pair cases).\n".format(
                 coq_list(bodies)))
             index.append(idx)
+    ctors = [gen_ctor(rng) for _ in range(ctx.n(120, 1500))]
+    bodies, idx = [], []
+    for case in ctors:
+        out = run_ctor(case)
+        res.evaluations += 1
+        res.count("constructor:" + out)
+        if out not in ("ok", "ValueError"):
+            res.disagreements.append({"name": "construction ended in " + out, "kind": "ctor", "case": case})
+            continue
+        bodies.append("({}, {}, {})".format(coq_list([q_(h) for h in case["xs"]]), coq_list([q_(h) for h in case["errs"]]),
+                                            coq_bool(out == "ok")))
+        idx.append(("ctor", case))
+    shards.append(HEADER + "Definition cases := {}.\nEval vm_compute in (bad_indices check_ctor cases).\n".format(coq_list(bodies)))
+    index.append(idx)
     res.rule = ("(a) q.Measurement(readings[, uncertainties]) for dyadic reading arrays of length 2-12 (small / large offset / fine / "
                 "wide / exact-std, list or ndarray; no, common, individual, partly zero or very unequal uncertainties): raw_data, "
                 "mean, std, error_on_mean, error_weighted_mean, propagated_error, value, error of the fresh object and after each "
                 "call of a random use_* history (0-9 calls), the warning flag, and value / error of k*a+c computed afterwards, "
                 "against Model.Stats (squares of uncertainties, 1e-9); (b) set_covariance / set_correlation without a number between "
                 "two plain arrays (collinear, nearly collinear, independent, unequal length, zero spread), function and method "
-                "form: outcome, covariance, correlation (through its square and sign). non-trivial = (a) a non-empty selector "
+                "form: outcome, covariance, correlation (through its square and sign); (c) malformed stream: construction with "
+                "uncertainty arrays of the wrong length or with a negative entry (accepted / ValueError). non-trivial = (a) a non-empty selector "
                 "history on an object with uncertainties, (b) an accepted pair; distinct by content")
     res.samples = [dict(runs[0][0]), dict(pruns[0][0])]
     bads, logs = coq.run_case_files(ID, shards, keep=getattr(ctx, "keep_cases", False))
@@ -300,8 +340,10 @@ def correspondence(ctx):
             continue
         for i in bad[0]:
             kind, case = idx[i]
-            res.disagreements.append({"name": "Model.Stats vs RepeatedlyMeasuredValue statistics" if kind == "rmv" else
-                                      "Model.Stats.c_cov vs inferred set_covariance / set_correlation", "kind": kind, "case": case})
+            name = {"rmv": "Model.Stats vs RepeatedlyMeasuredValue statistics",
+                    "pair": "Model.Stats.c_cov vs inferred set_covariance / set_correlation",
+                    "ctor": "Model.Stats.rmv_make vs q.Measurement(readings, uncertainties)"}[kind]
+            res.disagreements.append({"name": name, "kind": kind, "case": case})
     return res
 
 
@@ -430,6 +472,19 @@ def check_pair_oracle(case):
     return None
 
 
+def check_ctor_oracle(case):
+    n, errs = len(case["xs"]), [fx(h) for h in case["errs"]]
+    out = run_ctor(case)
+    good = len(errs) == n and all(e >= 0 for e in errs)
+    if good and out != "ok":
+        return "one non-negative uncertainty per reading: construction failed with " + out
+    if not good and out == "ok":
+        return "uncertainties {} for {} readings were accepted".format(errs, n)
+    if not good and out != "ValueError":
+        return "malformed uncertainties ended in {} instead of ValueError".format(out)
+    return None
+
+
 def load_corpus():
     d = os.path.join(core.VERIF, "corpus", ID)
     out = []
@@ -473,7 +528,7 @@ def shrink_pair(case):
 def search(ctx, suspects, budget):
     t0 = time.time()
     out = []
-    todo = [(s.get("kind"), s["case"]) for s in suspects if s.get("case")]
+    todo = [(s.get("kind"), s["case"]) for s in suspects if s.get("case") and s.get("kind") in ("rmv", "pair")]
     todo += [(c["kind"], c["case"]) for c in load_corpus()]
     rng = ctx.rng
     n = 0
@@ -505,10 +560,19 @@ def search(ctx, suspects, budget):
                         out.append(Violation(ID, kind2, small, why))
                         break
                 break
+    for case in [c for k, c in [(s_.get("kind"), s_.get("case")) for s_ in suspects] if k == "ctor" and c] + \
+            [gen_ctor(rng) for _ in range(ctx.n(60, 600))]:
+        why = check_ctor_oracle(case)
+        if why:
+            out.append(Violation(ID, "ctor", case, why))
+            break
     ctx.notes.append("oracle: {} cases against the Fraction reference".format(n))
     return out
 
 
 def replay(ctx, v):
+    if v["kind"] == "ctor":
+        why = check_ctor_oracle(v["case"])
+        return Violation(ID, v["kind"], v["case"], why) if why else None
     why = check_rmv_oracle(v["case"]) if v["kind"] == "rmv" else check_pair_oracle(v["case"])
     return Violation(ID, v["kind"], v["case"], why) if why else None
